@@ -639,6 +639,13 @@ func (gen *generator) gepExprType(old *ast.GetElementPtrExpr) (types.Type, error
 	for _, index := range old.Indices() {
 		indexVal := index.Index().Val()
 		idx := gen.getIndex(indexVal)
+		// A vector index widens the result; keep length and scalability.
+		if indexType, err := gen.irType(index.Index().Typ()); err == nil {
+			if indexType, ok := indexType.(*types.VectorType); ok {
+				idx.VectorLen = indexType.Len
+				idx.Scalable = indexType.Scalable
+			}
+		}
 		idxs = append(idxs, idx)
 	}
 	return gep.ResultType(elemType, src, idxs), nil
